@@ -341,6 +341,14 @@ def emulator_family(env, tier="quick"):
         for bn, bops in bases.items():
             for hn, hops in heralds.items():
                 fam.append({"name": "n%d/%s/%s" % (n, bn, hn), "n": n, "ops": bops + hops})
+        # nearly-but-not-exactly trivial couplings (tiny non-zero matrix elements), lossless and lossy
+        eps = 5e-10
+        fam.append({"name": "n%d/near_boundary" % n, "n": n,
+                    "ops": [("bs", 0, n - 1, env.R[1], "Rx", 0), ("ps", 0, env.PH[0], 0), ("bs", n - 1, 0, 1 - eps, "Rx", 0),
+                            ("bs", 0, n - 1, eps, "H", 0)] + ([("bs", 1, 0, 1 - eps, "Rx", 0)] if n > 2 else [])})
+        fam.append({"name": "n%d/near_boundary_lossy" % n, "n": n,
+                    "ops": [("bs", 0, n - 1, env.R2, "Rx", 0), ("loss", 0, eps), ("bs", n - 1, 0, 1 - eps, "Rx", 0),
+                            ("loss", n - 1, 1 - eps), ("bs", 0, n - 1, env.R[1], "H", 0)]})
         # internal ancillas from heralded sub-circuits (+ an external herald next to them)
         fam.append({"name": "n%d/sub_h3mid" % n, "n": n,
                     "ops": [("add", "h3mid", 0, False), ("bs", 0, n - 1, env.R[1], "Rx", 0)]})
@@ -356,7 +364,7 @@ def emulator_family(env, tier="quick"):
     if tier == "quick":
         # keep every n=2,3 circuit; thin n=4 to one loss placement per herald layout + subs
         fam = [f for f in fam if f["n"] < 4 or "sub" in f["name"] or "/U,L/" in f["name"]
-               or f["name"].endswith("/none")]
+               or f["name"].endswith("/none") or "near_boundary" in f["name"]]
     return fam
 
 
